@@ -3,6 +3,7 @@
 package vamana
 
 import (
+	"reflect"
 	"slices"
 	"sync"
 )
@@ -58,16 +59,37 @@ func verifSawChange(point IndexVectorChange) {
 	verifBatchCur.Stream = append(verifBatchCur.Stream, VerifChange{Id: point.Id, Vector: slices.Clone(point.Vector)})
 }
 
-func verifSortedKeys(m map[uint64]struct{}) []uint64 {
-	r := make([]uint64, 0, len(m))
-	for k := range m {
-		r = append(r, k)
+// verifIds reads node ids out of whatever container the bookkeeping uses: a
+// slice of ids or of changes keeps its order, a map gives its keys ascending.
+// The hook takes `any` so that a refactoring of those containers still builds.
+func verifIds(x any) []uint64 {
+	r := []uint64{}
+	v := reflect.ValueOf(x)
+	one := func(e reflect.Value) {
+		switch e.Kind() {
+		case reflect.Uint64:
+			r = append(r, e.Uint())
+		case reflect.Struct:
+			if f := e.FieldByName("Id"); f.IsValid() && f.Kind() == reflect.Uint64 {
+				r = append(r, f.Uint())
+			}
+		}
 	}
-	slices.Sort(r)
+	switch v.Kind() {
+	case reflect.Slice, reflect.Array:
+		for i := 0; i < v.Len(); i++ {
+			one(v.Index(i))
+		}
+	case reflect.Map:
+		for _, k := range v.MapKeys() {
+			one(k)
+		}
+		slices.Sort(r)
+	}
 	return r
 }
 
-func (v *IndexVamana) verifClassified(updated []IndexVectorChange, deleted []uint64, touched map[uint64]struct{}, inserted map[uint64]struct{}) {
+func (v *IndexVamana) verifClassified(updated, deleted, touched, inserted any) {
 	verifBatchMu.Lock()
 	defer verifBatchMu.Unlock()
 	if verifBatchCur == nil || verifBatchCur.Classified {
@@ -75,14 +97,14 @@ func (v *IndexVamana) verifClassified(updated []IndexVectorChange, deleted []uin
 	}
 	b := verifBatchCur
 	b.Classified = true
-	b.Inserted = verifSortedKeys(inserted)
-	b.Touched = verifSortedKeys(touched)
-	for _, p := range updated {
-		b.Updated = append(b.Updated, p.Id)
-	}
-	b.Deleted = slices.Clone(deleted)
+	b.Inserted = verifIds(inserted)
+	slices.Sort(b.Inserted)
+	b.Touched = verifIds(touched)
+	slices.Sort(b.Touched)
+	b.Updated = verifIds(updated)
+	b.Deleted = verifIds(deleted)
 	b.MaxNodeId = v.maxNodeId.Load()
-	if len(touched) > 0 {
+	if len(b.Touched) > 0 {
 		b.MidNodes = make(map[uint64][]uint64)
 		v.nodeStore.ForEach(func(id uint64, node *graphNode) error {
 			node.edgesMu.RLock()
@@ -93,12 +115,12 @@ func (v *IndexVamana) verifClassified(updated []IndexVectorChange, deleted []uin
 	}
 }
 
-func verifEdgeScan(toPrune, toSave []uint64) {
+func verifEdgeScan(toPrune, toSave any) {
 	verifBatchMu.Lock()
 	defer verifBatchMu.Unlock()
 	if b := verifBatchCur; b != nil {
 		b.Scanned = true
-		b.ToPrune = slices.Clone(toPrune)
-		b.ToSave = slices.Clone(toSave)
+		b.ToPrune = verifIds(toPrune)
+		b.ToSave = verifIds(toSave)
 	}
 }
